@@ -51,8 +51,10 @@ theorem cr_popBlock (st : St) (off : Nat) (blk : Block) : CR st (popBlock st off
 
 theorem cr_finishObject (st : St) (w : BW) : CR st (finishObject st w) := by
   unfold finishObject; split
-  · exact cr_complete _
   · exact cr_error _ _
+  · split
+    · exact cr_complete _
+    · exact cr_error _ _
 
 theorem cr_writeLoop (P : Params) (fuel : Nat) (st : St) (sbn : Nat) {st' : St} {b : Bool}
     (h : writeLoop P fuel st sbn = .ok (st', b)) : CR st st' := by
@@ -128,7 +130,7 @@ theorem cr_pushToBlock2 (P : Params) (st : St) (p : Pkt) {st' : St} {b : Bool}
                     split at h
                     · simp at h
                     · have q2 : Quiet st { ‹St› with blocks := (‹St›).blocks.set (‹PayloadId›.sbn - st.blocksOffset) ‹Block› } :=
-                        q1.trans ⟨rfl, rfl, rfl, rfl, rfl, rfl, .inl rfl, rfl, rfl⟩
+                        q1.trans ⟨rfl, rfl, rfl, rfl, rfl, rfl, .inl rfl, rfl, rfl, rfl⟩
                       split at h
                       · exact (CR.ofQuiet q2).trans (cr_writeBlocks _ _ _ h)
                       · simp at h; rw [← h.1]; exact CR.ofQuiet q2
@@ -203,7 +205,7 @@ where
     · split at h
       · split at h
         · simp at h
-        · simp at h; subst h; exact ⟨rfl, rfl, rfl, rfl, rfl, rfl, .inl rfl, rfl, rfl⟩
+        · simp at h; subst h; exact ⟨rfl, rfl, rfl, rfl, rfl, rfl, .inl rfl, rfl, rfl, rfl⟩
       · simp at h; rw [← h]; exact Quiet.refl _
 
 theorem cr_initObjectWriter (P : Params) (st : St) {st' : St} (h : initObjectWriter P st = .ok st') : CR st st' := by
